@@ -147,6 +147,23 @@ impl LineReader {
             fileoffset < old(self).filesz ==> !(r is Done),
     { unimplemented!() }
 }
+impl LineReader {
+    /// assumed (its documentation): Found = the whole line covering the offset, when it lies inside one block; Done = end of file,
+    /// or the line covering the offset does not lie inside one block (then it is at least two bytes long); the "partial" line, if
+    /// any, is that line's part inside the block
+    #[verifier::external_body]
+    pub fn find_line_in_block(&mut self, fileoffset: FileOffset) -> (r: (ResultS3LineFind, Option<Line>))
+        requires lines_wf(old(self).lines, old(self).filesz)
+        ensures
+            final(self).lines == old(self).lines, final(self).filesz == old(self).filesz,
+            fileoffset >= old(self).filesz ==> !(r.0 is Found),
+            r.0 is Found ==> covers(old(self).lines, r.0->Found_0.1.idx(), fileoffset as int)
+                && r.0->Found_0.1.beg() == old(self).lines[r.0->Found_0.1.idx()].beg && r.0->Found_0.1.end() == old(self).lines[r.0->Found_0.1.idx()].end
+                && r.0->Found_0.0 as int == r.0->Found_0.1.end() + 1,
+            r.0 is Done && fileoffset < old(self).filesz ==> exists|c: int| covers(old(self).lines, c, fileoffset as int) && old(self).lines[c].beg < old(self).lines[c].end,
+            r.1 is Some ==> r.0 is Done && covers(old(self).lines, r.1->0.idx(), fileoffset as int),
+    { unimplemented!() }
+}
 #[verifier::external_body]
 pub struct RangeMapStub { _p: u8 }
 impl RangeMapStub {
@@ -170,10 +187,14 @@ pub struct SyslineReader {
 }
 impl SyslineReader {
     pub open spec fn model(&self) -> Seq<LN> { self.linereader.lines }
-    pub open spec fn filesz(&self) -> int { self.linereader.filesz }
+    pub open spec fn fsz(&self) -> int { self.linereader.filesz }
     pub uninterp spec fn stored(&self, fo: FileOffset) -> bool;
     #[verifier::external_body]
     pub fn is_streamed_file(&self) -> bool { unimplemented!() }
+    #[verifier::external_body]
+    pub fn fileoffset_last(&self) -> (r: FileOffset) requires self.fsz() >= 1 ensures r as int == self.fsz() - 1 { unimplemented!() }
+    #[verifier::external_body]
+    pub fn filesz(&self) -> (r: u64) ensures r as int == self.fsz() { unimplemented!() }
     #[verifier::external_body]
     pub fn charsz(&self) -> (r: usize) ensures r == 1 { unimplemented!() }
     #[verifier::external_body]
@@ -201,9 +222,9 @@ impl SyslineReader {
 //@replace "self.find_sysline_lru_cache_put += 1;" "self.count_put();" count=2
 //@spec
     requires
-        lines_wf(old(self).model(), old(self).filesz()), old(self).filesz() < u64::MAX,
+        lines_wf(old(self).model(), old(self).fsz()), old(self).fsz() < u64::MAX,
     ensures
-        final(self).model() == old(self).model(), final(self).filesz() == old(self).filesz(),
+        final(self).model() == old(self).model(), final(self).fsz() == old(self).fsz(),
         // C02: whatever the search did, what it hands out (when not served from the store) is a whole message: a dated line
         // and all the undated lines after it, and the offset returned with it is where the next message starts
         !old(self).stored(fileoffset) && r is Found ==> ({
@@ -217,10 +238,10 @@ impl SyslineReader {
             (a <= k && forall|i: int| a < i <= k ==> !(#[trigger] old(self).model()[i]).dated)
             || (a > k && forall|i: int| k <= i < a ==> !(#[trigger] old(self).model()[i]).dated)
         }),
-        !old(self).stored(fileoffset) && fileoffset >= old(self).filesz() ==> !(r is Found),
+        !old(self).stored(fileoffset) && fileoffset >= old(self).fsz() ==> !(r is Found),
 //@at_entry
         let ghost l = self.model();
-        let ghost filesz = self.filesz();
+        let ghost filesz = self.fsz();
 //@before "let mut fo_zero_tried"
         // ghost: the undated lines examined so far while looking for the message start are lo .. hi-1 (contiguous)
         let ghost mut lo: int = 0;
@@ -231,8 +252,8 @@ impl SyslineReader {
                 hi > lo ==> fo1 <= fo_a_max && (lo > 0 ==> fo1 as int >= l[lo - 1].beg),
                 hi > lo ==> fo_a_max as int == l[hi - 1].end + 1,
             invariant
-                l == old(self).model(), filesz == old(self).filesz(),
-                self.model() == l, self.filesz() == filesz, lines_wf(l, filesz), filesz < u64::MAX, charsz_fo == 1,
+                l == old(self).model(), filesz == old(self).fsz(),
+                self.model() == l, self.fsz() == filesz, lines_wf(l, filesz), filesz < u64::MAX, charsz_fo == 1,
                 0 <= lo <= hi <= l.len(),
                 forall|i: int| lo <= i < hi ==> !(#[trigger] l[i]).dated,
                 hi > lo ==> forall|k: int| covers(l, k, fileoffset as int) ==> lo <= k < hi,
@@ -276,8 +297,8 @@ impl SyslineReader {
             invariant_except_break
                 fo1 as int == sysline.lines@.last().end() + 1, fo_b == fo1,
             invariant
-                l == old(self).model(), filesz == old(self).filesz(),
-                self.model() == l, self.filesz() == filesz, lines_wf(l, filesz), filesz < u64::MAX,
+                l == old(self).model(), filesz == old(self).fsz(),
+                self.model() == l, self.fsz() == filesz, lines_wf(l, filesz), filesz < u64::MAX,
                 sysline.lines@.len() >= 1, sysline.refs_ok(l),
                 0 <= a0 && a0 + sysline.lines@.len() <= l.len(), fileoffset < filesz,
                 l[a0].dated,
@@ -302,6 +323,112 @@ impl SyslineReader {
         let ghost a0 = sysline.lines@[0].idx();
 //@mutate "fo1 = fo2;" "fo1 = fo2 + 1;"
 //@mutate "fo1 = fo_a_max;" "fo1 = fo_a_max + 1;"
+//@end
+
+//@cut fn path=src/readers/syslinereader.rs impl=SyslineReader name=is_sysline_last ret=r
+//@spec
+    requires sysline.lines@.len() > 0, self.fsz() >= 1, sysline.lines@.last().end() < self.fsz()
+    ensures r == (sysline.lines@.last().end() == self.fsz() - 1)
+//@end
+
+//@cut fn path=src/readers/syslinereader.rs impl=SyslineReader name=find_sysline_in_block_year ret=r
+//@replace "pub fn find_sysline_in_block_year" "#[verifier::exec_allows_no_decreases_clause] pub fn find_sysline_in_block_year"
+//@replace "self.find_sysline_lru_cache_put += 1;" "self.count_put();" count=2
+//@spec
+    requires
+        lines_wf(old(self).model(), old(self).fsz()), 1 <= old(self).fsz() < u64::MAX,
+    ensures
+        final(self).model() == old(self).model(), final(self).fsz() == old(self).fsz(),
+        // C02 (block-zero analysis): what is stored and handed out is a whole message even when lines cross the block's end:
+        // a message is only returned once the line after its last line was seen to be dated, or the file ends
+        !old(self).stored(fileoffset) && r.0 is Found ==> ({
+            &&& is_message(old(self).model(), r.0->Found_0.1.v())
+            &&& r.0->Found_0.1.refs_ok(old(self).model())
+            &&& r.0->Found_0.0 as int == old(self).model()[r.0->Found_0.1.v().last()].end + 1
+        }),
+        // and it is the first message that starts at or after the line at `fileoffset`
+        !old(self).stored(fileoffset) && r.0 is Found ==> forall|k: int| covers(old(self).model(), k, fileoffset as int) ==> ({
+            let a = r.0->Found_0.1.v()[0];
+            a >= k && forall|i: int| k <= i < a ==> !(#[trigger] old(self).model()[i]).dated
+        }),
+//@at_entry
+        let ghost l = self.model();
+        let ghost filesz = self.fsz();
+//@before "let mut fo1: FileOffset = fileoffset;"
+        let ghost mut lo: int = 0;
+        let ghost mut hi: int = 0;
+//@loop 1
+            invariant_except_break
+                hi == lo ==> fo1 == fileoffset,
+                hi > lo ==> fo1 as int == l[hi - 1].end + 1,
+            invariant
+                l == old(self).model(), filesz == old(self).fsz(),
+                self.model() == l, self.fsz() == filesz, lines_wf(l, filesz), 1 <= filesz < u64::MAX,
+                0 <= lo <= hi <= l.len(),
+                forall|i: int| lo <= i < hi ==> !(#[trigger] l[i]).dated,
+                hi > lo ==> forall|k: int| covers(l, k, fileoffset as int) ==> k == lo,
+            ensures
+                sysline.lines@.len() == 1, sysline.refs_ok(l), 0 <= sysline.lines@[0].idx() < l.len(), l[sysline.lines@[0].idx()].dated,
+                fo1 as int == sysline.lines@[0].end() + 1, sysline.lines@[0].end() < filesz - 1,
+                forall|k: int| covers(l, k, fileoffset as int) ==> ({
+                    let a = sysline.lines@[0].idx();
+                    a >= k && forall|i: int| k <= i < a ==> !(#[trigger] l[i]).dated
+                }),
+//@before "let result: ResultParseDateTime =" 1
+            let ghost c = linep.idx();
+            proof {
+                lemma_bounds(l, filesz, c);
+                if hi > lo {
+                    lemma_cover_next(l, filesz, c, fo1 as int, hi - 1);
+                    if hi < l.len() { assert(l[(hi - 1) + 1].beg == l[hi - 1].end + 1); lemma_cover_next(l, filesz, c, fo1 as int, hi); }
+                    assert(c == hi);
+                } else {
+                    assert forall|k: int| covers(l, k, fileoffset as int) implies k == c by { lemma_cover_unique(l, filesz, k, c, fileoffset as int); }
+                }
+            }
+//@before "fo1 = fo2;" 1
+            proof {
+                if hi == lo { lo = c; hi = c + 1; } else { hi = c + 1; }
+            }
+//@loop 2
+            invariant_except_break
+                fo1 as int == sysline.lines@.last().end() + 1,
+            invariant
+                l == old(self).model(), filesz == old(self).fsz(),
+                self.model() == l, self.fsz() == filesz, lines_wf(l, filesz), 1 <= filesz < u64::MAX,
+                sysline.lines@.len() >= 1, sysline.refs_ok(l),
+                0 <= b0 && b0 + sysline.lines@.len() <= l.len(),
+                l[b0].dated,
+                forall|i: int| 0 <= i < sysline.lines@.len() ==> (#[trigger] sysline.lines@[i]).idx() == b0 + i,
+                forall|j: int| b0 < j < b0 + sysline.lines@.len() ==> !(#[trigger] l[j]).dated,
+            ensures
+                fo_b as int == sysline.lines@.last().end() + 1,
+                b0 + sysline.lines@.len() == l.len() || l[b0 + sysline.lines@.len() as int].dated,
+//@before "let fo_b: FileOffset;"
+        let ghost b0 = sysline.lines@[0].idx();
+//@before "fo_b = sysline.fileoffset_end()"
+                    proof {
+                        // not before the last byte and no line found: the file has ended (a one-byte last line cannot cross a block end)
+                        let last = b0 + sysline.lines@.len() - 1;
+                        assert(sysline.lines@[sysline.lines@.len() - 1].idx() == last);
+                        lemma_bounds(l, filesz, last);
+                        if fo1 < filesz {
+                            let cc = choose|cc: int| covers(l, cc, fo1 as int) && l[cc].beg < l[cc].end;
+                            lemma_bounds(l, filesz, cc);
+                            lemma_cover_next(l, filesz, cc, fo1 as int, last);
+                            assert(l[last + 1].beg == l[last].end + 1);
+                            lemma_cover_next(l, filesz, cc, fo1 as int, last + 1);
+                        }
+                    }
+//@before "let result: ResultParseDateTime =" 2
+            let ghost c = linep.idx();
+            proof {
+                let last = b0 + sysline.lines@.len() - 1;
+                assert(sysline.lines@[sysline.lines@.len() - 1].idx() == last);
+                lemma_cover_next(l, filesz, c, fo1 as int, last);
+                if last + 1 < l.len() { assert(l[last + 1].beg == l[last].end + 1); lemma_cover_next(l, filesz, c, fo1 as int, last + 1); }
+                assert(c == last + 1);
+            }
 //@end
 }
 
